@@ -114,7 +114,10 @@ def case_int(n: int) -> dict:
         except Exception as e:
             return {"C19:int-negative-wrong-exception": f"int_to_base64({n}) raised {type(e).__name__}"}
         return {"C19:int-negative-accepted": f"int_to_base64({n}) returned {r!r}"}
-    s = int_to_base64(n)
+    try:
+        s = int_to_base64(n)
+    except Exception as e:      # every non-negative integer has an encoding
+        return {f"C19:int-encode-raises:{type(e).__name__}": f"int_to_base64({n}) raised {type(e).__name__}: {e}"}
     if not isinstance(s, str) or not _RE.match(s.encode()):
         f["C19:int-encoding-alphabet"] = f"int_to_base64({n}) = {s!r}"
         return f
